@@ -35,13 +35,14 @@
 
 (define (string-any check str . o)
   (let ((pred (make-char-predicate check))
+        (start (if (pair? o)
+                   (->cursor str (car o))
+                   (string-cursor-start str)))
         (end (if (and (pair? o) (pair? (cdr o)))
                  (->cursor str (cadr o))
                  (string-cursor-end str))))
-    (and (string-cursor>? end (if (pair? o)
-                                  (->cursor str (car o))
-                                  (string-cursor-start str)))
-         (let lp ((i (string-cursor-start str)))
+    (and (string-cursor>? end start)
+         (let lp ((i start))
            (let ((i2 (string-cursor-next str i))
                  (ch (string-cursor-ref str i)))
              (if (string-cursor>=? i2 end)
